@@ -103,6 +103,18 @@ def run_total(run, cases, procs=14, timeout=3400):
             if rc == 0:
                 live.remove(st)
                 continue
+            if rc == 3:
+                # the process stopped itself after several abandoned (possibly spinning) requests: a fresh process carries on
+                last = next((b for b in reversed(begun)), None)
+                idx = [i for i, c in enumerate(st["cases"]) if c["id"] == last][0]
+                st["start"] = idx + 1
+                st["restarts"] = st.get("restarts", 0) + 1
+                if st["start"] >= len(st["cases"]) or st["restarts"] > 3:
+                    st["abandoned_from"] = st["start"]
+                    live.remove(st)
+                    continue
+                launch(st)
+                continue
             # crashed: the last begun and unfinished case is the culprit
             culprit = next((b for b in reversed(begun) if b not in done_ids), None)
             with open(os.path.join(base, "err%d.txt" % st["k"]), "rb") as f:
@@ -118,6 +130,9 @@ def run_total(run, cases, procs=14, timeout=3400):
             launch(st)
     out = {}
     for st in procs_state:
+        if "abandoned_from" in st:
+            for c in st["cases"][st["abandoned_from"]:]:
+                out[c["id"]] = {"id": c["id"], "len": 0, "tokens": [{"t": "EOF", "p": 0, "q": 0}], "problems": ["skipped: not run, the harness process kept hanging"], "requests": 0, "maxMs": 0}
         if os.path.exists(st["out"]):
             with open(st["out"]) as f:
                 for line in f:
@@ -239,6 +254,9 @@ def main(args):
         else:
             traces.append((c["id"], res["len"], res.get("tokens") or []))
         for p in res.get("problems") or []:
+            if p.startswith("skipped:"):
+                run.extra["texts_skipped_after_hangs"] = run.extra.get("texts_skipped_after_hangs", 0) + 1
+                continue
             kind = p.split("@", 1)[0]
             what = "panic" if "panic:" in p else "timeout" if "timeout" in p else "no-publication" if "publi" in p else "problem"
             sig = "%s:%s" % (what, kind)
